@@ -47,6 +47,12 @@ CHECKS = [
           "key/priority/payload/parameters equal what Job.enqueue() returned and the configured settings, and the actor's arguments equal an "
           "independent JSON normalisation (inline and bucket transport).",
   "note": _MODEL + _SRV},
+ {"property_id": "C08", "level": "exploration", "design_ref": "DESIGN.md §4 C08",
+  "technique": "property-based testing over generated actor signatures (exec-ed source, real CPython binding) and payloads against an independent binder; converter differential; output round trip",
+  "text": "Signatures x payload shapes (empty, exact, missing, extras, permuted) are bound by an independent reference binder and compared with "
+          "what the generated function actually receives through convert_inputs and through a Worker; Basic vs Pydantic vs default-selection "
+          "differential on typed payloads; json.loads(convert_outputs(v))==v for values of the return annotation.",
+  "note": _MODEL + " Pydantic 2 installed; *args/**kwargs only under BasicConverter (documented as unsupported by PydanticConverter)."},
  {"property_id": "C09", "level": "exploration", "design_ref": "DESIGN.md §4 C09",
   "technique": "scenario property-based testing with an in-body concurrency counter and a bounded-latency progress oracle, 3 brokers",
   "text": _WORKER + " Safety oracle: bodies in progress <= tasks_limit at every instant. Progress oracle: no free slot + deliverable message "
